@@ -204,6 +204,11 @@ class Param:
 
 def _unique_name(params: Any) -> str:
     """Create a unique name for parameter-class instance `params`"""
+    if isinstance(params, dict):
+        # Dictionary-valued parameters, as used by `ExternalModule`s with `paramtype=dict`.
+        # These have no declared field-types; always use the hashing method.
+        return _hashed_name(params)
+
     if not isparamclass(params):
         raise RuntimeError(f"Invalid parameter-class instance {params}")
 
@@ -241,8 +246,14 @@ def _unique_name(params: Any) -> str:
 
     # Non-scalar cases generally include nested `@paramclasses` or sequences,
     # or surpass the length-limits above. We serialize and hash them.
+    return _hashed_name(params)
+
+
+def _hashed_name(params: Any) -> str:
+    """Create a unique name for `params` by hashing its JSON serialization."""
+
     # Preferably serialize as JSON
-    jsonstr = json.dumps(params, indent=4, default=hdl21_naming_encoder)
+    jsonstr = json.dumps(params, indent=4, default=hdl21_naming_encoder, sort_keys=isinstance(params, dict))
     data = bytes(jsonstr, encoding="utf-8")
 
     # If JSON encoding fails, we *could* use pickle instead.
